@@ -119,3 +119,26 @@ func typedRels(c *Ctx) []string {
 	}
 	return out
 }
+
+func init() {
+	props = append(props, propSpec{ID: "C05", Level: "other", Run: checkC05,
+		Explanation: "Structure that order/exactly-once delivery needs, decided for all schedules: no goroutine is spawned anywhere on the event path; every event-path channel has a single sending function and the distributors are called only from their owner's run loop; _subscription.run forwards exactly the received event once; both distributors are a single complete range with one delivery per element/subscriber and no early exit; the publisher's map is confined to its run goroutine, registration happens inside the loop and returns the registered value; the cache replies only after its handler ran (cache-before-event) and the controller publishes exactly the events of that reply.",
+		Assumptions: []string{"no overflow (premise of the property)", "Go channels are FIFO per channel", "scheduler fairness"}})
+}
+
+func checkC05(c *Ctx) {
+	checkSubscriptionTable(c)
+	checkPublisherTable(c)
+	checkPublisherFanout(c)
+	checkControllerDistribute(c)
+	checkFSubDistribute(c)
+	checkEventPathSingleSender(c)
+	m := newCacheModel(c)
+	m.checkRunLoop() // reply after the handler ran
+	checkControllerTable(c)
+	c.floor("T-TABLE(_subscription.run)", 4, "2 arms, defer close, send")
+	c.floor("T-TABLE(publisher.run)", 4, "event ok / closed (drained or not) / subscribe / unsubscribe")
+	c.floor("T-CHAN(single-sender)", 4, "4 event-path channels")
+	c.floor("T-NOSPAWN(event-path)", 8, "8 event-path functions")
+	c.floor("T-SHAPE(distribute)", 3, "3 distributors")
+}
